@@ -12,6 +12,34 @@ def load_known():
         return json.load(f)
 
 
+class SkipRule(Exception):
+    pass
+
+
+# rules that interpret function bodies on thousands of inputs, each implemented by a dedicated entry function (run_rule / run_*_rule) of a helper module
+SLOW_RULES = {'C02-R13', 'C02-R14', 'C02-R15', 'C02-R16', 'C02-R17', 'C02-R18', 'C09-R8', 'C09-R9', 'C04-R7', 'C12-R6', 'C12-R7', 'C08-R6', 'C01-R7'}
+
+
+def guard_entry_points(modules):
+    """wrap run_rule / run_*_rule of the helper modules so that a SkipRule raised by Result.rule ends just that rule"""
+    import functools
+    for mod in modules:
+        for name in dir(mod):
+            if name == 'run_rule' or (name.startswith('run_') and name.endswith('_rule')):
+                fn = getattr(mod, name)
+                if callable(fn) and not getattr(fn, '_guarded', False):
+                    def make(f):
+                        @functools.wraps(f)
+                        def w(*a, **k):
+                            try:
+                                return f(*a, **k)
+                            except SkipRule:
+                                return None
+                        w._guarded = True
+                        return w
+                    setattr(mod, name, make(fn))
+
+
 class Rule:
     """one clause rule of a property; collects instances"""
 
@@ -40,6 +68,10 @@ class Result:
         self.broken = []
 
     def rule(self, rid, clause, floor=1):
+        focus = os.environ.get('XV_FOCUS_RULE')
+        if focus and rid in SLOW_RULES and rid != focus:
+            # self-test of one mutant: the slow interpretive rules other than the one the mutant is aimed at are left out (never on a real check)
+            raise SkipRule(rid)
         r = Rule(self, rid, clause, floor)
         self.rules.append(r)
         return r
